@@ -15,7 +15,8 @@ META = dict(
     explanation="merge_cvrs is executed symbolically on K records for every identifier pattern (set partition) and tally-pool labelling "
                 "(grid), with symbolic phantom/pool flags and symbolic 'lists this contest' bits; per path the result is compared with the "
                 "specification: one record per identifier in first-appearance order, contests = union, the last record listing a contest "
-                "supplies its votes (object identity), phantom = AND, pool is a true/false value = OR, tally pool common or ValueError. "
+                "supplies its votes (object identity), phantom = AND, pool is a true/false value = OR, tally pool common or ValueError; "
+                "cells where two records of different cards hold the same votes dict object (merging one card must not change the other). "
                 "from_raire is executed on files whose contest/ballot-id/ranking per row are chosen by the solver (forked).",
     bounds={"quick": {"records": [2, 3], "contests": 2, "raire": "1 header + 3 ballot rows, 2 contests, 2 ids, rankings over 2 candidates"},
             "thorough": {"records": [2, 3, 4], "contests": 2, "raire": "2 headers + 4 rows, 3 ids"}},
